@@ -1,4 +1,53 @@
-/- Driver for C11 (stub: not built yet). -/
+/- Driver for C11: naive / polynomial-trend / statsmodels-adapter models.  Import-free (Model only). -/
+import SkVerif.Model.Naive
+import SkVerif.Model.Trend
+import SkVerif.Drv.Parse
 namespace SkVerif.Drv.C11
-def handle (_toks : List String) : String := "bad-op"
+open SkVerif SkVerif.Drv SkVerif.Naive
+
+def showErr : Err → String
+  | .value => "E:value" | .index => "E:index" | .key => "E:key" | .type => "E:type"
+
+def showSeries : Except Err (List (Int × Val)) → String
+  | .error e => showErr e
+  | .ok ps => s!"idx={showIntList (ps.map (·.1))} val={showORatList (ps.map (·.2))}"
+
+def parseStrategy? : String → Option Strategy
+  | "last" => some .last | "mean" => some .mean | "drift" => some .drift | "other" => some .other
+  | _ => none
+
+def parseOInt? (s : String) : Option (Option Int) :=
+  if s == "none" then some none else (parseInt? s).map some
+
+def showRows (rows : List (List Int)) : String :=
+  if rows.isEmpty then "-" else ";".intercalate (rows.map showIntList)
+
+def handle (toks : List String) : String :=
+  match toks with
+  | ["naive", st, sp, wl, origin, y, fh, rel] =>
+    match parseStrategy? st, parseInt? sp, parseOInt? wl, parseInt? origin, parseORatList? y,
+          parseIntList? fh, parseBool? rel with
+    | some st, some sp, some wl, some origin, some y, some fh, some rel =>
+      showSeries (fitPredict st sp wl y origin (.ints fh) rel)
+    | _, _, _, _, _, _, _ => "bad-op"
+  | ["trend", deg, bias, origin, y, fh, rel] =>
+    match parseNat? deg, parseBool? bias, parseInt? origin, parseORatList? y, parseIntList? fh, parseBool? rel with
+    | some deg, some bias, some origin, some y, some fh, some rel =>
+      if deg > 1 then "bad-op" else showSeries (Trend.fitPredict deg bias y origin (.ints fh) rel)
+    | _, _, _, _, _, _ => "bad-op"
+  | ["design", deg, bias, origin, n, fh, rel] =>
+    match parseNat? deg, parseBool? bias, parseInt? origin, parseNat? n, parseIntList? fh, parseBool? rel with
+    | some deg, some bias, some origin, some n, some fh, some rel =>
+      match Trend.designs deg bias n origin (.ints fh) rel with
+      | .error e => showErr e
+      | .ok (xf, xp, labels) => s!"fit={showRows xf} pred={showRows xp} idx={showIntList labels}"
+    | _, _, _, _, _, _ => "bad-op"
+  | ["adapter", origin, n, fh, rel, dense] =>
+    match parseInt? origin, parseNat? n, parseIntList? fh, parseBool? rel, parseORatList? dense with
+    | some origin, some n, some fh, some rel, some dense =>
+      let sm : Int → Val := fun i => if i < 0 then none else (dense[i.toNat]?).getD none
+      showSeries (Trend.adapterPredict sm n origin (.ints fh) rel)
+    | _, _, _, _, _ => "bad-op"
+  | _ => "bad-op"
+
 end SkVerif.Drv.C11
